@@ -51,6 +51,7 @@ def run(ctx):
     ctx.rule("R13.1", "DEPKEYS: the key set scan_deps iterates over == the keys emitted by rEnabledBy / rDepends / rDefaultDepends, and each is used as the metadata lookup key")
     ctx.rule("R13.3", "PER-MESSAGE: scan_deps receives no mutable state that is shared between the messages of one file (the dependency edges of a line must not depend on the other lines)")
     ctx.rule("R13.4", "KAHN-BALANCED: the in-degree of the topological sort is incremented once per entry of every message's dependee list and decremented once per entry of the released message's list - both by a range-for over the whole `dependees` vector")
+    ctx.rule("R13.5", "FIRST-SEPARATOR: an entry of a dependency list is cut at the first separator after its start (std::string::find / find_first_of / strchr with the separator), never at the last one")
     ctx.rule("R13.2", "DEPVALUE: the separator scan_deps splits dependency values at is the one rDepends emits between paths")
     per_message_state(ctx, u, "R13.3")
     fd = u.function("dispatch_printed_messages")
@@ -112,6 +113,19 @@ def run(ctx):
         ctx.ob("R13.1", "key \"%s\"" % k, ok, site=A.where(arr), detail={"scanned_by_scan_deps": k in lits, "emitted_by": emitted.get(k), "used_as_lookup_key": used},
                what="dependency key \"%s\": scanned by scan_deps=%s, emitted by %s" % (k, k in lits, emitted.get(k)))
     ctx.require_count("R13.1", 3)
+    # R13.5
+    cuts = []
+    for x in A.walk(u.body(fn)):
+        if x.get("kind") == "CXXMemberCallExpr":
+            cal = A.strip_casts(A.kids(x)[0])
+            if cal.get("kind") == "MemberExpr" and cal.get("name") in ("find", "rfind", "find_first_of", "find_last_of", "find_first_not_of", "find_last_not_of"):
+                a = A.kids(x)[1:]
+                if a and A.int_literal(a[0]) == ord(",") and not any(A.where(x) == A.where(o) and cal.get("name") == n_ for n_, o in cuts):
+                    cuts.append((cal.get("name"), x))
+    ctx.require(cuts, "scan_deps: no search for the list separator found")
+    for nm, x in cuts:
+        ctx.ob("R13.5", "cut with %s(',')@%s" % (nm, A.loc(x)[1]), nm in ("find", "find_first_of"), site=A.where(x),
+               what="scan_deps cuts a dependency entry with %s(','): for a list of three or more paths every entry but the last resolves to a bogus path" % nm)
     # separator
     seps = sorted({chr(A.int_literal(A.kids(c)[2])) for c in A.calls_in(u.body(fn), "strchr") if A.int_literal(A.kids(c)[2]) is not None})
     val = dict(em["rDepends"]).get("depends") or ""
